@@ -57,7 +57,13 @@ class Fragment:
                     # or `ClockSignal()` in their ports would keep referring to those.
                     obj.domains = OrderedDict()
                 if hasattr(obj, "origins"):
-                    obj.origins = tuple(origins) + (obj.origins or ())
+                    # A fragment that an elaboratable keeps and returns every time (e.g. an `Instance`)
+                    # already lists these origins if the design has been elaborated before.
+                    new_origins = tuple(origins)
+                    old_origins = obj.origins or ()
+                    if not (new_origins and len(old_origins) >= len(new_origins) and
+                            all(new is old for new, old in zip(new_origins, old_origins))):
+                        obj.origins = new_origins + old_origins
                 return obj
             elif isinstance(obj, Elaboratable):
                 code = obj.elaborate.__code__
